@@ -259,3 +259,39 @@ func c18NodeFaults() vh.Unit {
 		u.Sample("rounds on a node whose un-trust (or disconnect) calls all fail: every declared-invalid peer still gets the other call")
 	}}
 }
+
+// strict peering across address families: a peer connected from address A and listed by the pool
+// under address B is kept iff A and B are the same host - for private, carrier-grade, link-local,
+// unique-local and public addresses alike (ports never matter)
+func c18AddressFamilies() vh.Unit {
+	return vh.Unit{Name: "address-families", Run: func(u *vh.U) {
+		vsched.SetVirtualClock(false)
+		hosts := []string{"10.0.0.9", "10.0.0.5", "192.168.1.4", "172.16.5.5", "100.64.0.7", "169.254.3.3", "8.8.4.4", "[fd00::1]", "[fd00::2]", "[fe80::1]", "[2001:db8::7]"}
+		for _, a := range hosts {
+			for _, b := range hosts {
+				for _, ports := range [][2]string{{"30303", "30303"}, {"30303", "1234"}} {
+					for _, strict := range []bool{true, false} {
+						r := c18Round{states: [4]string{"local+same", "absent", "absent", "absent"}, strict: strict, target: 0, kind: ethnode.Geth,
+							localAddr0: a + ":" + ports[0], activeEntry0: "enode://" + c18Ids[0] + "@" + b + ":" + ports[1]}
+						node, sp, ag := c18Setup(r)
+						if err := c18Start(ag, sp, r); err != nil {
+							u.Violate("agent/start-failed", err.Error(), nil)
+							return
+						}
+						u.R.Evaluations++
+						u.R.States++
+						u.R.Transitions++
+						u.R.Traces++
+						ok := c18Run(u, r, node, true, ag, sp)
+						ag.Stop()
+						u.Observe(fmt.Sprintf("families %s %s strict=%v dropped=%v", a, b, strict, len(node.calls) > 0))
+						if !ok {
+							return
+						}
+					}
+				}
+			}
+		}
+		u.Sample("11 x 11 address pairs x same/other port x strict on/off")
+	}}
+}
